@@ -94,8 +94,8 @@ func (a *api) call(method, pattern, u string, body []byte) (code int, resp []byt
 	go func() {
 		var o out
 		defer func() {
-			if o.pan = recover(); o.pan != nil {
-				o.pan = fmt.Sprintf("%v [%s]", o.pan, panicSite())
+			if x := recover(); x != nil {
+				o.pan = fmt.Sprintf("%v [%s]", x, panicSite())
 			}
 			ch <- o
 		}()
@@ -176,6 +176,25 @@ var varTemplates = []struct{ name, decl, use string }{
 	{"d", "var v duration", "stream|from().measurement('m')|window().period(v).every(v)|count('x')|log()"},
 	{"l", "var v lambda", "stream|from().measurement('m')|where(v)|log()"},
 	{"ls", "var v list", "stream|from().measurement('m').groupBy(v)|log()"},
+	// a var of each type used at every kind of place that takes it (a template is defined with the var still undefined)
+	{"le", "var v lambda", "stream|from().measurement('m')|eval(v).as('value')|log()"},
+	{"le2", "var v lambda", "stream|from().measurement('m')|eval(lambda: \"x\" + 1, v).as('a', 'b').keep('a')|log()"},
+	{"la", "var v lambda", "stream|from().measurement('m')|alert().crit(v).warnReset(v).message('m')"},
+	{"lsd", "var v lambda", "stream|from().measurement('m')|stateDuration(v)|stateCount(v)|log()"},
+	{"lfw", "var v lambda", "stream|from().measurement('m').where(v)|log()"},
+	{"lcomb", "var v lambda", "stream|from().measurement('m')|combine(v, v).as('a', 'b')|log()"},
+	{"lnest", "var v lambda", "var w = lambda: v AND TRUE\nstream|from().measurement('m')|where(w)|log()"},
+	{"rfrom", "var v regex", "stream|from().measurement('m')|eval(lambda: regexReplace(v, \"s\", 'x')).as('r')|log()"},
+	{"sid", "var v string", "stream|from().measurement('m')|alert().id(v).message(v).details(v).crit(lambda: TRUE).topic(v)"},
+	{"sas", "var v string", "stream|from().measurement('m')|eval(lambda: 1).as(v).tags(v)|groupBy(v)|log().prefix(v)"},
+	{"dshift", "var v duration", "stream|from().measurement('m')|shift(v)|derivative('x').unit(v)|elapsed('x', v)|log()"},
+	{"dbar", "var v duration", "stream|from().measurement('m')|barrier().idle(v)|window().period(v).every(v).align()|count('x')|log()"},
+	{"icount", "var v int", "stream|from().measurement('m')|window().periodCount(v).everyCount(v)|top(v, 'x')|log()"},
+	{"ima", "var v int", "stream|from().measurement('m')|movingAverage('x', v)|percentile('x', v)|log()"},
+	{"fperc", "var v float", "stream|from().measurement('m')|window().period(1s).every(1s)|percentile('x', v)|log()"},
+	{"fflap", "var v float", "stream|from().measurement('m')|alert().crit(lambda: TRUE).flapping(v, v).history(3)"},
+	{"lskeep", "var v list", "stream|from().measurement('m')|eval(lambda: 1).as('a').keep(v)|delete().field(v)|log()"},
+	{"bquiet", "var v bool", "stream|from().measurement('m')|default().field('b', v)|where(lambda: \"b\" == v)|log()"},
 	{"def", "var v = 1", "stream|from().measurement('m')|sample(v)|log()"},
 	{"defl", "var v = ['a', 'b']", "stream|from().measurement('m').groupBy(v)|log()"},
 	{"deflam", "var v = lambda: \"x\" > 1", "stream|from().measurement('m')|where(v)|log()"},
@@ -194,8 +213,9 @@ func famVars(r *rt.Run, env *rt.Env, emit emitFn) {
 		tid := "tpl_" + tp.name
 		body, _ := json.Marshal(map[string]any{"id": tid, "type": "stream", "script": tp.decl + "\n" + tp.use})
 		if code := a.doc("template", "POST", "/templates", base+"/templates", body, &t, &bad); code != 200 {
-			bad = append(bad, fmt.Sprintf("template %s was not accepted (%d): the vars documents below test nothing", tp.name, code))
-			t.panics++
+			// refused (an error answer): an outcome like any other; there is nothing to instantiate then
+			// (a refused create may still have stored the template: remove it)
+			a.call("DELETE", "/templates/", base+"/templates/"+tid, nil)
 			emit("vars", 0, tp.name, t, bad)
 			continue
 		}
